@@ -98,6 +98,9 @@ Proof.
     + rewrite <- IH by auto. split; [intros [H|H]; [congruence|auto] | auto].
 Qed.
 
+Lemma with_fs_id : forall s, with_fs s (fs s) = s.
+Proof. intros []; reflexivity. Qed.
+
 (* ---------------- sorting ---------------- *)
 
 Lemma in_insert_str : forall x a l, In x (insert_str a l) <-> x = a \/ In x l.
